@@ -1,0 +1,91 @@
+//! Verification hooks. Compiled only with `RUSTFLAGS="--cfg feoxdb_verif"`; nothing
+//! here exists in a normal build. Every registry is process-global and off by default.
+
+/// Thin wrappers that make crate-private pure functions reachable from a harness.
+pub mod pure {
+    use crate::error::Result;
+
+    pub fn crc32c(seed: u32, data: &[u8]) -> u32 {
+        crate::storage::seq_token::crc32c(seed, data)
+    }
+
+    pub fn seq_token(sector: u64, header: &[u8]) -> u16 {
+        crate::storage::seq_token::seq_token(sector, header)
+    }
+
+    pub fn record_seq_token(sector: u64, data: &[u8]) -> u16 {
+        crate::storage::seq_token::record_seq_token(sector, data)
+    }
+
+    pub fn stamp_seq_token(data: &mut [u8], sector: u64, version: u32) {
+        let format = crate::storage::format::get_format_ref(version);
+        crate::storage::seq_token::stamp_seq_token(data, sector, format);
+    }
+
+    pub fn header_ok(data: &[u8], version: u32) -> bool {
+        let format = crate::storage::format::get_format_ref(version);
+        crate::storage::seq_token::header_range(format, data).is_some()
+    }
+
+    pub fn fill_retirement_markers(retired: &mut [u8], sector: u64, remaining: usize) {
+        crate::storage::format::fill_retirement_markers(retired, sector, remaining);
+    }
+
+    pub fn retirement_marker_token(sector: u64, marker: &[u8]) -> u16 {
+        crate::storage::format::retirement_marker_token(sector, marker)
+    }
+
+    pub fn journal_encode_active(generation: u64, extents: &[(u64, usize)]) -> Result<Vec<u8>> {
+        crate::storage::allocation_journal::encode_active(generation, extents)
+    }
+
+    pub fn journal_encode_clear(generation: u64) -> Result<Vec<u8>> {
+        crate::storage::allocation_journal::encode_clear(generation)
+    }
+
+    /// (generation, slot, extents)
+    pub fn journal_decode(data: &[u8], total_sectors: u64) -> Result<(u64, usize, Vec<(u64, usize)>)> {
+        crate::storage::allocation_journal::decode(data, total_sectors)
+            .map(|state| (state.generation, state.slot, state.extents))
+    }
+
+    pub fn coalesce_extents(extents: &[(u64, usize)]) -> Result<Vec<(u64, usize)>> {
+        crate::storage::io::verif_coalesce_extents(extents)
+    }
+
+    pub fn metadata_generation(metadata: &crate::storage::metadata::Metadata) -> u64 {
+        metadata.generation()
+    }
+
+    pub fn metadata_advance(metadata: &mut crate::storage::metadata::Metadata) -> Result<()> {
+        metadata.advance_generation()
+    }
+
+    pub fn record_struct_size() -> usize {
+        std::mem::size_of::<crate::core::record::Record>()
+    }
+}
+
+/// Pinned wall clock: when set, every place that reads the time for versions or
+/// expiry uses this value instead of `SystemTime::now()`.
+pub mod clock {
+    use std::sync::atomic::{AtomicU64, Ordering};
+
+    static PINNED: AtomicU64 = AtomicU64::new(0);
+
+    pub fn pin(now_ns: u64) {
+        PINNED.store(now_ns, Ordering::SeqCst);
+    }
+
+    pub fn unpin() {
+        PINNED.store(0, Ordering::SeqCst);
+    }
+
+    #[inline]
+    pub fn now() -> Option<u64> {
+        match PINNED.load(Ordering::Relaxed) {
+            0 => None,
+            pinned => Some(pinned),
+        }
+    }
+}
